@@ -154,9 +154,15 @@ type scenario struct {
 	MaxCrashes int    `json:"max_crashes"`
 	Torn       bool   `json:"torn"`
 	PerThread  bool   `json:"per_thread_instance"` // one FileCache per thread (separate processes share only the directory)
+	Faultable  []int  `json:"faultable,omitempty"`  // threads whose create/write/close/fsync/rename steps may be answered with an error
+	MaxFaults  int    `json:"max_faults,omitempty"`
 }
 
 func set(u int, b string) op { return op{"set", u, b} }
+
+// setc is a Set whose context is already cancelled: it may refuse (then it is like a failed Set), but if it reports
+// success the bundle must have been stored - the freshness clause does not depend on the context.
+func setc(u int, b string) op { return op{"setc", u, b} }
 func get(u int) op           { return op{"get", u, ""} }
 
 func scenarios(thorough bool) []scenario {
@@ -174,8 +180,20 @@ func scenarios(thorough bool) []scenario {
 		// URLs that differ only in letter case are different URLs
 		{Name: "W(u1)||W(U1 upper case)||R;R (case isolation)", Init: []op{set(0, "A")}, Threads: [][]op{{set(0, "B")}, {set(2, "C")}, {get(0), get(2)}}, MaxCrashes: 0},
 	}
+	s = append(s,
+		scenario{Name: "W(cancelled context);R||R from A", Init: []op{set(0, "A")}, Threads: [][]op{{setc(0, "B"), get(0)}, {get(0)}}, MaxCrashes: 0},
+	)
+	// environment faults: one step of the writer is answered with an error (ENOSPC half-way through a write, EIO on
+	// close/fsync, EXDEV on rename, ENOSPC on create). A Set that reports the error may or may not have taken effect;
+	// whatever it leaves behind must still read as a miss or a complete bundle.
+	s = append(s,
+		scenario{Name: "W(fault)||R;R from A, torn", Init: []op{set(0, "A")}, Threads: [][]op{{set(0, "B")}, {get(0), get(0)}}, Faultable: []int{0}, MaxFaults: 1, Torn: true},
+		scenario{Name: "W(fault);R||R from empty", Threads: [][]op{{set(0, "B"), get(0)}, {get(0)}}, Faultable: []int{0}, MaxFaults: 1, PerThread: true},
+		scenario{Name: "W(fault)||W||R same url from C", Init: []op{set(0, "C")}, Threads: [][]op{{set(0, "A")}, {set(0, "B")}, {get(0)}}, Faultable: []int{0}, MaxFaults: 1},
+	)
 	if thorough {
 		s = append(s,
+			scenario{Name: "W(fault);W||R;R from A, fault+crash", Init: []op{set(0, "A")}, Threads: [][]op{{set(0, "B"), set(0, "C")}, {get(0), get(0)}}, Faultable: []int{0}, MaxFaults: 1, Crashable: []int{0}, MaxCrashes: 1},
 			scenario{Name: "W||W||R;R same url, torn, 2 crashes", Init: []op{set(0, "C")}, Threads: [][]op{{set(0, "A")}, {set(0, "B")}, {get(0), get(0)}}, Crashable: []int{0, 1}, MaxCrashes: 2, Torn: true},
 			scenario{Name: "W||R||R", Init: []op{set(0, "A")}, Threads: [][]op{{set(0, "B")}, {get(0), get(0)}, {get(0)}}, Crashable: []int{0}, MaxCrashes: 1, Torn: true, PerThread: true},
 			scenario{Name: "W;W||W||R", Threads: [][]op{{set(0, "A"), set(1, "B")}, {set(0, "C")}, {get(0), get(1)}}, Crashable: []int{0}, MaxCrashes: 1},
@@ -207,6 +225,9 @@ type world struct {
 }
 
 var ctx = context.Background()
+
+// privateTmp returns "TMPDIR=<a fresh private directory>" for a child process (set up in main).
+var privateTmp = func(tag string) string { return "TMPDIR=" + os.TempDir() }
 
 func (w *world) reset() {
 	_ = os.RemoveAll(w.root)
@@ -245,8 +266,15 @@ func (w *world) bodies() []func() {
 				w.hist = append(w.hist, histOp{Thread: ti, Kind: o.Kind, URL: o.URL, In: o.Bundle, Call: w.seq, Ret: -1, Crashed: true})
 				// Crashed stays true until the call returns: a crash unwinds through here with a panic
 				switch o.Kind {
-				case "set":
-					err := c.Set(ctx, urls[o.URL], w.bs.bundles[o.Bundle])
+				case "set", "setc":
+					cx := ctx
+					if o.Kind == "setc" {
+						var cancel context.CancelFunc
+						cx, cancel = context.WithCancel(ctx)
+						cancel()
+						w.hist[idx].Kind = "set"
+					}
+					err := c.Set(cx, urls[o.URL], w.bs.bundles[o.Bundle])
 					w.seq++
 					h := &w.hist[idx]
 					h.Ret, h.Crashed = w.seq, false
@@ -409,7 +437,7 @@ func (w *world) allowed(u int) map[string]bool {
 	}
 	for _, p := range w.sc.Threads {
 		for _, o := range p {
-			if o.Kind == "set" && o.URL == u {
+			if (o.Kind == "set" || o.Kind == "setc") && o.URL == u {
 				a[o.Bundle] = true
 			}
 		}
@@ -571,6 +599,7 @@ type jobResult struct {
 	Complete   bool           `json:"complete"`
 	Outcomes   map[string]int `json:"outcomes"`
 	Crashes    int            `json:"executions_with_crash"`
+	Faults     int            `json:"executions_with_fault"`
 	Conflicts  int            `json:"executions_with_concurrent_conflict"`
 	Violations []violation    `json:"violations"`
 	Sample     any            `json:"sample"`
@@ -596,9 +625,12 @@ func runJob(j job) jobResult {
 		}
 	}
 	res := jobResult{Job: fmt.Sprintf("%s / bound %d", j.Scenario.Name, j.Bound), Outcomes: map[string]int{}}
-	cfg := sched.Config{Crashable: map[int]bool{}, MaxCrashes: j.Scenario.MaxCrashes}
+	cfg := sched.Config{Crashable: map[int]bool{}, MaxCrashes: j.Scenario.MaxCrashes, Faultable: map[int]bool{}, MaxFaults: j.Scenario.MaxFaults}
 	for _, c := range j.Scenario.Crashable {
 		cfg.Crashable[c] = true
+	}
+	for _, c := range j.Scenario.Faultable {
+		cfg.Faultable[c] = true
 	}
 	// self-check 1: the shim is active (the code under test reaches the scheduler)
 	x0 := sched.Run(nil, cfg, w.bodies()...)
@@ -643,6 +675,10 @@ func runJob(j job) jobResult {
 		if crashed {
 			res.Crashes++
 			outs = append(outs, "crash")
+		}
+		if x.Faults > 0 {
+			res.Faults++
+			outs = append(outs, "fault")
 		}
 		res.Outcomes[strings.Join(outs, " ")]++
 		// non-trivial: two operations on the same URL, at least one a Set, overlapped in time
@@ -767,6 +803,7 @@ func runE4(r *hx.Run, bundleDir, scratch string) e4Result {
 			allowed[kl.init] = true
 		}
 		cmd := exec.Command(strace, "-f", "-o", "/dev/null", "-e", "trace="+kl.sys, "-e", fmt.Sprintf("inject=%s:signal=SIGKILL:when=%d", kl.sys, kl.k), self, "--proc-set", root, urls[0], bundleDir, "B")
+		cmd.Env = append(os.Environ(), privateTmp(fmt.Sprintf("k%d", i)))
 		out, _ := cmd.CombinedOutput()
 		killed := !strings.Contains(string(out), "SET-OK")
 		// fresh observer (this process never shared memory with the killed one)
@@ -835,22 +872,42 @@ func main() {
 	bundleDir := filepath.Join(scratch, "bundles")
 	writeBundles(bundleDir)
 	self, _ := os.Executable()
+	// The code under test may stage files in os.TempDir(). Every process of this run gets a private TMPDIR, and one
+	// on ANOTHER file system than the cache roots where that is possible (scratch is tmpfs, /tmp usually is not):
+	// a rename from there fails with EXDEV for real. Removed before the run ends.
+	tmpBase, terr := os.MkdirTemp("/tmp", "verif-c14-tmp-")
+	if terr != nil {
+		tmpBase = filepath.Join(scratch, "tmpdirs")
+	}
+	privateTmp = func(tag string) string {
+		d := filepath.Join(tmpBase, tag)
+		_ = os.MkdirAll(d, 0o700)
+		return "TMPDIR=" + d
+	}
+	_ = os.Setenv("TMPDIR", strings.TrimPrefix(privateTmp("parent"), "TMPDIR="))
+	finish := func() {
+		_ = os.RemoveAll(tmpBase)
+		r.Finish()
+	}
 
 	if r.Replay != "" {
 		var v violation
 		if err := r.LoadReplay(&v); err != nil {
 			r.Infra("replay: %v", err)
-			r.Finish()
+			finish()
 		}
 		if len(v.Trace) == 1 && strings.HasPrefix(v.Trace[0], "free-running") {
 			// a finding of the free-running pass: re-run that pass for the scenario (real schedules, not a recorded one)
 			r.Extra["e5_free_running"] = runFree(r, self, bundleDir, scratch, &v.Scenario)
-			r.Finish()
+			finish()
 		}
 		w := &world{bs: loadBundles(bundleDir), root: filepath.Join(scratch, "replay", "cache"), sc: v.Scenario}
-		cfg := sched.Config{Crashable: map[int]bool{}, MaxCrashes: v.Scenario.MaxCrashes}
+		cfg := sched.Config{Crashable: map[int]bool{}, MaxCrashes: v.Scenario.MaxCrashes, Faultable: map[int]bool{}, MaxFaults: v.Scenario.MaxFaults}
 		for _, c := range v.Scenario.Crashable {
 			cfg.Crashable[c] = true
+		}
+		for _, c := range v.Scenario.Faultable {
+			cfg.Faultable[c] = true
 		}
 		x := sched.Run(v.Choices, cfg, w.bodies()...)
 		pm := w.postMortem()
@@ -861,7 +918,7 @@ func main() {
 		for _, kv := range w.judge(x, pm) {
 			r.Violation(kv[0], kv[1], v)
 		}
-		r.Finish()
+		finish()
 	}
 
 	bound := 2
@@ -885,7 +942,7 @@ func main() {
 	r.Parallel(len(jobs), func(i int) {
 		jb, _ := json.Marshal(jobs[i])
 		cmd := exec.Command(self, "--worker", string(jb))
-		cmd.Env = append(os.Environ(), "GOMAXPROCS=1")
+		cmd.Env = append(os.Environ(), "GOMAXPROCS=1", privateTmp(fmt.Sprintf("w%d", i)))
 		out, err := cmd.CombinedOutput()
 		idx := bytes.LastIndex(out, []byte("RESULT "))
 		if err != nil || idx < 0 {
@@ -935,7 +992,7 @@ func main() {
 		for _, v := range res.Violations {
 			r.Violation(v.Key, v.What+" | scenario: "+v.Scenario.Name+" | schedule: "+strings.Join(v.Trace, " ; "), v)
 		}
-		perJob = append(perJob, map[string]any{"job": res.Job, "executions": res.Executions, "pruned": res.Pruned, "global_states": res.States, "scheduling_points": res.Points, "max_depth": res.MaxDepth, "complete": res.Complete, "executions_with_crash": res.Crashes, "executions_with_overlapping_conflict": res.Conflicts, "distinct_outcomes": len(res.Outcomes)})
+		perJob = append(perJob, map[string]any{"job": res.Job, "executions": res.Executions, "pruned": res.Pruned, "global_states": res.States, "scheduling_points": res.Points, "max_depth": res.MaxDepth, "complete": res.Complete, "executions_with_crash": res.Crashes, "executions_with_environment_fault": res.Faults, "executions_with_overlapping_conflict": res.Conflicts, "distinct_outcomes": len(res.Outcomes)})
 	}
 	r.Extra["e1_jobs"] = perJob
 	r.Extra["preemption_bound"] = strconv.Itoa(bound) + " (-1 = unbounded with global-state pruning)"
@@ -959,5 +1016,5 @@ func main() {
 	}
 	// E5 (supplementary)
 	r.Extra["e5_free_running"] = runFree(r, self, bundleDir, scratch, nil)
-	r.Finish()
+	finish()
 }
